@@ -64,7 +64,19 @@ let () = each_line (fun line ->
     let evs = List.map parse_event (List.filter (fun s -> s <> "") (split_on ',' ef)) in
     let (tr, fin) = run ports world0 evs in
     let recs = List.map show_rec tr in
+    (* the side condition of the theorems, evaluated by the extracted MidiSpec.nocross on the
+       model's own records; the plug-in's canon() sets the Python value beside it.  #P = the pending
+       controllers as the records imply them (MidiSpec.pending_of), #R = whether the model's ring
+       holds exactly those *)
+    let nc = if nocross evs tr then "#N=1" else "#N=0" in
+    let pl = List.map iz (pending_of evs tr) in
+    let ps = "#P=" ^ String.concat "," (List.map string_of_int pl) in
     (match fin with
-     | Some w -> print_endline (String.concat ";" recs ^ "|" ^ show_state (List.length ports) w)
-     | None -> print_endline (String.concat ";" (recs @ ["CRASH"])))
+     | Some w ->
+       let q = w.wr.pending in
+       let vals = Array.of_list (List.map iz q.vals) in
+       let ring = List.init (iz q.psize) (fun i -> vals.((iz q.pos_r + i) mod 32)) in
+       print_endline (String.concat ";" recs ^ "|" ^ show_state (List.length ports) w ^ nc ^ ps
+                      ^ (if ring = pl then "#R=1" else "#R=0"))
+     | None -> print_endline (String.concat ";" (recs @ ["CRASH"]) ^ nc ^ ps))
   | _ -> print_endline "BADCASE")
